@@ -94,7 +94,11 @@ def build(spec):
         if spec.get("wide") and platform == "nxos":
             body.append("10.0.0.0 0.255.255.128")  # 17 non-contiguous bits: needs max_ncwb > 16
             extra["max_ncwb"] = 30
-        grp = C.AddrGroup(head + "\n" + "\n".join(" " + s for s in body), platform=platform, note=note, **extra)
+        if extra:
+            # members created through items= inherit the group's limit (the line setter uses the default)
+            grp = C.AddrGroup(name="G", items=list(body), platform=platform, note=note, **extra)
+        else:
+            grp = C.AddrGroup(head + "\n" + "\n".join(" " + s for s in body), platform=platform, note=note)
         for j, m in enumerate(grp.items):
             m.note = Note(["member", j])
         return grp
